@@ -3,8 +3,10 @@ pub mod hex;
 pub mod uv;
 pub mod sexp;
 pub mod dsl;
+pub mod clisyn;
 /// serde-reflection 0.4.0 (the version crux_core's typegen traces with) under a stable name: the `cli` binary
 /// rebinds the name `serde_reflection` to 0.5 for the crux_cli source it compiles by path
 pub mod sr04 {
     pub use serde_reflection::*;
 }
+pub mod gen;
